@@ -7,6 +7,7 @@
   that no handler writes the peer's counter (`PeerFrame`).
 -/
 import PyIkev2.Proofs.Machine
+import PyIkev2.Proofs.Handlers
 
 namespace PyIkev2.Props.C08
 open PyIkev2 PyIkev2.Impl
@@ -200,5 +201,39 @@ def demoMsg (id : Nat) : Msg :=
 -- ids 3, 3, 2, 4, 3, 9 arrive: 3 and 4 are executed, once each
 example : (runHistory demoH () demoSa [(1, some (demoMsg 3)), (2, some (demoMsg 3)), (3, some (demoMsg 2)),
     (4, some (demoMsg 4)), (5, some (demoMsg 3)), (6, some (demoMsg 9))] []).2.2 = [3, 4] := by decide
+
+/-! ### the whole model: the shell with the concrete handlers of Model/Handlers.lean
+
+  The frame condition is no longer a hypothesis: it is proved for the model of the real per-exchange handlers and
+  request generators (Proofs/Handlers.lean: none of them assigns `peer_msg_id`), so the history theorems hold for the
+  model of the complete IKE_SA object, for every oracle tape (every entropy, every cryptographic verdict, every kernel
+  answer) and every input history. -/
+
+/-- no handler or generator of the model touches the peer's Message ID counter -/
+theorem c08_concrete_peer_frame : PeerFrame concreteHandlers :=
+  { req := fun t s now m t' o h => (concrete_req_const t s now m t' o h).1,
+    resp := fun t s now m t' o h => (concrete_resp_const t s now m t' o h).1,
+    genAcquire := fun t s now a b i => (concrete_genAcquire_const t s now a b i).1,
+    genExpire := fun t s now c h => (concrete_genExpire_const t s now c h).1 }
+
+/-- the executed request IDs of the complete model are strictly increasing under any input history and any oracle tape -/
+theorem c08_whole_model_executed_ids_strictly_increasing (inputs : List Input) (w : XWorld) (s : Sa) :
+    (runHistory concreteHandlers w s inputs []).2.2.Pairwise (· < ·) :=
+  c08_executed_ids_strictly_increasing concreteHandlers c08_concrete_peer_frame inputs w s [] List.Pairwise.nil (by simp)
+
+/-- … hence at most once -/
+theorem c08_whole_model_at_most_once (inputs : List Input) (w : XWorld) (s : Sa) :
+    (runHistory concreteHandlers w s inputs []).2.2.Nodup :=
+  c08_at_most_once concreteHandlers c08_concrete_peer_frame inputs w s
+
+/-- the response cache is written by the shell only: whatever a handler of the model does, the stored response, the
+    retransmission bookkeeping and the queued events are what they were when it was called -/
+theorem c08_concrete_handlers_leave_shell_fields (w : XWorld) (s : Sa) (now : Nat) (m : Msg) (w' : XWorld) (o : HOut)
+    (h : concreteHandlers.req w s now m = (w', some o)) :
+    o.sa.core.lastResp = s.core.lastResp ∧ o.sa.core.rtx = s.core.rtx ∧ o.sa.core.rtxAt = s.core.rtxAt ∧
+    o.sa.core.pending = s.core.pending ∧ o.sa.core.mySpi = s.core.mySpi ∧ o.sa.core.isInit = s.core.isInit := by
+  have := concrete_req_const w s now m w' o h
+  simp only [CoreConst] at this
+  simp [this]
 
 end PyIkev2.Props.C08
